@@ -718,3 +718,70 @@ func init() {
 			Run: runOperandStorageInPlace})
 	}
 }
+
+// ---- C12.R7 (second half): one layout pass positions, resolves, then advances ----
+//
+// In compile.Instructions.Pass every instruction is given its position, then (on resolving passes) its jump
+// argument is resolved — which may widen it — and only then does the address advance by the instruction's size.
+// Decided on the order of the three calls on the loop element inside the loop, whatever the if-shapes around them.
+func runPassOrder(c *Ctx, r *Rep) {
+	p := c.MustPkg("compile")
+	info := p.TypesInfo
+	fd := c.MethodDeclX("compile", "Instructions", "Pass")
+	if fd == nil || fd.Body == nil {
+		r.undecided("passorder|(compile.Instructions).Pass", token.NoPos, "method not found")
+		return
+	}
+	r.analysed("(compile.Instructions).Pass")
+	var loop *ast.RangeStmt
+	ast.Inspect(fd.Body, func(n ast.Node) bool {
+		if rs, ok := n.(*ast.RangeStmt); ok && loop == nil {
+			loop = rs
+		}
+		return loop == nil
+	})
+	if loop == nil {
+		r.undecided("passorder|loop", fd.Pos(), "no range loop over the instructions found")
+		return
+	}
+	first := map[string]token.Pos{}
+	last := map[string]token.Pos{}
+	ast.Inspect(loop.Body, func(n ast.Node) bool {
+		call, ok := n.(*ast.CallExpr)
+		if !ok {
+			return true
+		}
+		sel, ok := call.Fun.(*ast.SelectorExpr)
+		if !ok {
+			return true
+		}
+		switch sel.Sel.Name {
+		case "SetPos", "Resolve", "Size":
+			if _, isMethod := info.Selections[sel]; isMethod {
+				if _, seen := first[sel.Sel.Name]; !seen {
+					first[sel.Sel.Name] = call.Pos()
+				}
+				last[sel.Sel.Name] = call.Pos()
+			}
+		}
+		return true
+	})
+	for _, m := range []string{"SetPos", "Resolve", "Size"} {
+		if _, ok := first[m]; !ok {
+			r.undecided("passorder|call "+m, loop.Pos(), "no call of %s on an instruction inside the loop; confirm how a layout pass works and update the rule", m)
+			return
+		}
+	}
+	r.check(last["SetPos"] < first["Resolve"], "passorder|position before resolve", first["Resolve"],
+		"an instruction is positioned before its jump is resolved",
+		"a jump is resolved before the instruction has been given its position in this pass: a relative jump computes its argument from a stale position")
+	r.check(last["Resolve"] < first["Size"], "passorder|resolve before advance", first["Size"],
+		"the address advances by the instruction's size after the jump has been resolved",
+		"the address advances by the instruction's size before the jump is resolved: a jump that Resolve widens (EXTENDED_ARG) is accounted with its old size, the following positions are not moved and every later jump target is off by three")
+}
+
+func init() {
+	register(&Rule{ID: "C12.R10", Prop: "C12", Floor: 2,
+		Doc: "one layout pass (compile.Instructions.Pass): inside the loop over the instructions SetPos comes before Resolve and Resolve before Size — the address advances by the size the instruction has after its jump was resolved",
+		Run: runPassOrder})
+}
